@@ -206,11 +206,22 @@ func (e *kvElection) electionCtx() context.Context {
 func (e *kvElection) Start(ctx context.Context) error {
 	// A claim left behind by a previous run whose context was cancelled a
 	// moment ago is given up before the new run begins.
-	if prev := e.electionCtx(); prev != nil && prev.Err() != nil {
-		e.endCancelledRun(prev)
-	}
+	for {
+		if prev := e.electionCtx(); prev != nil && prev.Err() != nil {
+			e.endCancelledRun(prev)
+		}
 
-	e.mu.Lock()
+		e.mu.Lock()
+		if e.ctx != nil && e.ctx.Err() != nil && e.isLeader.Load() {
+			// Cancelled between the look above and the lock: the claim of that
+			// run must be given up first (not under the mutex: OnDemote runs),
+			// or it would be carried into the new run, where nothing refreshes
+			// its record and nothing ends it.
+			e.mu.Unlock()
+			continue
+		}
+		break
+	}
 	defer e.mu.Unlock()
 
 	if e.ctx != nil && e.ctx.Err() == nil {
